@@ -196,13 +196,15 @@ def _ref(schema, t):
 
 def _dump_input(schema, a):
     return {"name": a.name, "py": a.python_name, "type": _ref(schema, a.type),
-            "default": [] if a._default_value is _UNSET else [a._default_value], "desc": a.description}
+            "default": [] if a._default_value is _UNSET else [a._default_value], "desc": a.description,
+            "sdirs": _dirs_of_nodes([a.node])}
 
 
 def _dump_field(schema, f):
     return {"name": f.name, "py": f.python_name, "type": _ref(schema, f.type),
             "args": [_dump_input(schema, a) for a in f.arguments], "desc": f.description,
-            "depr": f.deprecation_reason, "res": fn_id(f.resolver), "sub": fn_id(f.subscription_resolver)}
+            "depr": f.deprecation_reason, "res": fn_id(f.resolver), "sub": fn_id(f.subscription_resolver),
+            "sdirs": _dirs_of_nodes([f.node])}
 
 
 def dump_schema(schema):
@@ -215,7 +217,8 @@ def dump_schema(schema):
             continue
         k = kind_of(t)
         e = {"name": t.name, "kind": k, "desc": t.description, "members": [], "refs": [], "res": None,
-             "builtin": t in SPECIFIED_SCALAR_TYPES, "key": n}
+             "builtin": t in SPECIFIED_SCALAR_TYPES, "key": n,
+             "sdirs": _dirs_of_nodes(getattr(t, "nodes", []) or [])}
         if k in ("object", "interface"):
             e["fields"] = [_dump_field(schema, f) for f in t.fields]
         if k == "object":
@@ -230,7 +233,7 @@ def dump_schema(schema):
             e["fields"] = [_dump_input(schema, f) for f in t.fields]
         if k == "enum":
             e["values"] = [{"name": v.name, "value": v.value, "desc": v.description,
-                            "depr": v.deprecation_reason} for v in t.values]
+                            "depr": v.deprecation_reason, "sdirs": _dirs_of_nodes([v.node])} for v in t.values]
         types.append(e)
     dirs = []
     for n, d in schema.directives.items():
@@ -361,14 +364,18 @@ def sx_ref(r):
     return _sl([_sl([_sa(1 if w == "L" else 2) for w in r["w"]]), _ss(r["name"]), _sa(1 if r["ok"] else 0)])
 
 
+def sx_dirs(ds):
+    return _sl([_sl([_ss(d[0]), _sos(d[1])]) for d in ds])
+
+
 def sx_input(a):
     return _sl([_ss(a["name"]), _ss(a["py"]), sx_ref(a["type"]),
-                _sl([sx_pv(a["default"][0])] if a["default"] else []), _sos(a["desc"])])
+                _sl([sx_pv(a["default"][0])] if a["default"] else []), _sos(a["desc"]), sx_dirs(a.get("sdirs", []))])
 
 
 def sx_field(f):
     return _sl([_ss(f["name"]), _ss(f["py"]), sx_ref(f["type"]), _sl([sx_input(a) for a in f["args"]]),
-                _sos(f["desc"]), _sos(f["depr"]), _son(f["res"]), _son(f["sub"])])
+                _sos(f["desc"]), _sos(f["depr"]), _son(f["res"]), _son(f["sub"]), sx_dirs(f.get("sdirs", []))])
 
 
 def sx_type(t):
@@ -378,11 +385,12 @@ def sx_type(t):
     elif k == "input":
         members = [sx_input(f) for f in t["fields"]]
     elif k == "enum":
-        members = [_sl([_ss(v["name"]), sx_pv(v["value"]), _sos(v["desc"]), _sos(v["depr"])]) for v in t["values"]]
+        members = [_sl([_ss(v["name"]), sx_pv(v["value"]), _sos(v["desc"]), _sos(v["depr"]), sx_dirs(v.get("sdirs", []))])
+                   for v in t["values"]]
     else:
         members = []
     return _sl([_ss(t["name"]), _sa(KINDS.index(k)), _sos(t["desc"]), _sl(members),
-                _sl([sx_named(n) for n in t["refs"]]), _son(t["res"])])
+                _sl([sx_named(n) for n in t["refs"]]), _son(t["res"]), sx_dirs(t.get("sdirs", []))])
 
 
 def sx_dump(d):
